@@ -71,7 +71,7 @@ def main():
         for m in res["mismatches"]:
             if m.get("text") != "...more" and "coll" in json.dumps(m["tree"]):
                 chk.violation({"law": "reference semantics", "expr": m["text"], "doc": m["doc"], "cfg": m["cfg"], "spec": m["want"], "impl": m["got"]["o"]})
-        summ, bad = vlib.run_relate(chk, tag, world, "c06")
+        summ, bad = vlib.run_relate(chk, tag, world, "c06", module="Laws", invariants=("BuilderOK", "LawUnroll"))
         chk.cov["evaluations"] += summ["evals"] + res["evals"]
         for l in open(os.path.join(vlib.sub(tag), "groups.ndjson")):
             g = json.loads(l)
